@@ -1168,6 +1168,7 @@ Proof. intros Hsub [H1 H2 H3]. constructor; auto. now apply (Lpart_sub S S'). Qe
 Lemma with_layers_post um body s (Q : wpred) :
   (forall ld, LDI (skel (read_layer_files c (w_fs (s_w s)))) ld ->
      check_inheritance (read_layer_files c (w_fs (s_w s))) = true -> paths_ok c (ld_map ld) ->
+     cores_ok c (w_fs (s_w s)) (ld_map ld) ->
      post (fun w => w = s_w s) (body ld) (fun _ => Q)) ->
   match with_layers c um body s with (Ret _, s') => Q (s_w s') | _ => True end.
 Proof.
@@ -1175,7 +1176,7 @@ Proof.
   rewrite guard_k. destruct (base_set_up c (w_fs (s_w s))); [|exact I].
   unfold bind at 1. destruct (get_layers_spec c um s) as (o & E & Ho). rewrite E.
   destruct o as [ld| | | |]; try exact I.
-  destruct Ho as (HLD & HC & _). pose proof (Hb ld HLD HC (get_layers_paths _ _ _ _ _ E) s I eq_refl) as H.
+  destruct Ho as (HLD & HC & _). pose proof (Hb ld HLD HC (get_layers_paths _ _ _ _ _ E) (get_layers_cores _ _ _ _ _ E) s I eq_refl) as H.
   unfold bind. destruct (body ld s) as [[ld'| | | |] s']; try exact I. cbn. apply H.
 Qed.
 
@@ -1580,7 +1581,7 @@ Theorem forest_kept_rename a b0 : e_pretend e = false ->
 Proof.
   intros Hnp. cbn [run_command].
   apply (with_layers_post um (fun ld => rename_layer e c ld a b0) s (fun w => gforest (G (w_fs w)))).
-  intros ld HLD _ HP.
+  intros ld HLD _ HP _.
   eapply post_conseq; [apply (rename_layer_post f0 e ld a b0 Hc0 Hn0 Hcl0 Hnp HLD HP HG)| |]; cbv beta; auto.
   intros w ->. reflexivity.
 Qed.
